@@ -270,15 +270,16 @@ type paintSite struct {
 
 // replay walks the whole trace, maintaining per canvas the stack of Transform events in force
 // (Save/Restore delimit OnNewStack scopes), and calls visit for every event with the chain of its
-// canvas.  A group canvas (NewGroup: opacity) starts with the chain in force where it was created:
-// it is composited by DrawWithOpacity inside the same scope, so its content is subject to exactly
-// those transforms followed by its own.
-func replay(evs []rec.Event, visit func(i int, e rec.Event, chain []int)) {
+// canvas.  It returns, for every group canvas (NewGroup: opacity) that was composited with
+// DrawWithOpacity, the canvas it was drawn on and the chain in force there at that moment: the
+// content of a group is subject to those transforms followed by the group's own (see resolve).
+func replay(evs []rec.Event, visit func(i int, e rec.Event, chain []int)) map[int]composite {
 	type st struct {
 		stack [][]int
 		cur   []int
 	}
 	states := map[int]*st{}
+	comps := map[int]composite{}
 	for i, e := range evs {
 		s := states[e.Cv]
 		if s == nil {
@@ -296,13 +297,35 @@ func replay(evs []rec.Event, visit func(i int, e rec.Event, chain []int)) {
 			}
 		case "Transform":
 			s.cur = append(s.cur, i)
-		case "NewGroup":
-			if e.Ref >= 0 {
-				states[e.Ref] = &st{cur: append([]int(nil), s.cur...)}
+		case "DrawWithOpacity":
+			if _, dup := comps[e.Ref]; e.Ref >= 0 && !dup {
+				comps[e.Ref] = composite{parent: e.Cv, chain: append([]int(nil), s.cur...)}
 			}
 		}
 		visit(i, e, s.cur)
 	}
+	return comps
+}
+
+type composite struct {
+	parent int
+	chain  []int
+}
+
+// resolve turns the chain observed on canvas cv into the chain relative to the page: the chains
+// at the DrawWithOpacity calls of the enclosing groups are prepended.  ok is false when the canvas
+// is neither the page nor composited (its content is never shown).
+func resolve(comps map[int]composite, page, cv int, chain []int) (full []int, ok bool) {
+	full = chain
+	for hops := 0; cv != page; hops++ {
+		c, has := comps[cv]
+		if !has || hops > 64 {
+			return nil, false
+		}
+		full = append(append([]int(nil), c.chain...), full...)
+		cv = c.parent
+	}
+	return full, true
 }
 
 func checkCSS(raw json.RawMessage) fw.Result {
@@ -353,7 +376,7 @@ func checkCSS(raw json.RawMessage) fw.Result {
 			totalTransforms++
 		}
 	}
-	replay(evs, func(i int, e rec.Event, chain []int) {
+	comps := replay(evs, func(i int, e rec.Event, chain []int) {
 		if e.Op == "SetColorRgba" {
 			pending = -1
 			for k, b := range in.Boxes {
@@ -369,6 +392,13 @@ func checkCSS(raw json.RawMessage) fw.Result {
 			pending = -1
 		}
 	})
+
+	for k := range sites {
+		if sites[k].has {
+			full, ok := resolve(comps, cv, evs[sites[k].at].Cv, sites[k].chain)
+			sites[k].chain, sites[k].has = full, ok
+		}
+	}
 
 	// expectations
 	hidden := make([]bool, len(in.Boxes))  // inside a box with a non-invertible transform
@@ -463,7 +493,10 @@ func checkCSS(raw json.RawMessage) fw.Result {
 			} else {
 				res.Count("css_origin_initial", 1)
 			}
-			ms := []affE{leaf(mTranslate(x+ox, y+oy), 8)}
+			// the origin is a float32 sum of the border-box corner and the resolved offset: its error
+			// is relative to the operands, not to the (possibly cancelling) sum
+			oe := aff{E: 8 * eps32 * (math.Abs(x) + math.Abs(ox) + 500), F: 8 * eps32 * (math.Abs(y) + math.Abs(oy) + 500)} // +500: the corner itself is a sum of page-sized terms
+			ms := []affE{{M: mTranslate(x+ox, y+oy), Err: oe}}
 			for _, f := range b.Fns {
 				m, err := cssMatrix(f, c)
 				if err != nil {
@@ -471,7 +504,7 @@ func checkCSS(raw json.RawMessage) fw.Result {
 				}
 				ms = append(ms, m)
 			}
-			ms = append(ms, leaf(mTranslate(-(x+ox), -(y+oy)), 8))
+			ms = append(ms, affE{M: mTranslate(-(x + ox), -(y + oy)), Err: oe})
 			l := listProduct(ms)
 			locals[k] = &l
 		}
